@@ -125,12 +125,27 @@ func WithToken() OptionFn {
 		p := h.dataDir
 		p = path.Join(p, "token")
 
+		// the token is written to a temporary file and renamed into place, so that a start-up
+		// that is interrupted never leaves an empty or partial token behind
+		writeToken := func() error {
+			tmp := p + ".tmp"
+
+			if err := ioutil.WriteFile(tmp, []byte(uid), 0600); err != nil {
+				return err
+			}
+
+			return os.Rename(tmp, p)
+		}
+
 		if _, err := os.Stat(p); os.IsNotExist(err) {
-			ioutil.WriteFile(p, []byte(uid), 0600)
+			writeToken()
 		} else if err != nil /* other error */ {
 			return err
 		} else if data, err := ioutil.ReadFile(p); err != nil {
 			return err
+		} else if _, err := xid.FromString(string(data)); err != nil {
+			// not a token (an earlier start was interrupted while writing it): replace it
+			writeToken()
 		} else {
 			uid = string(data)
 		}
